@@ -132,7 +132,7 @@ def dim_map(shape, role):
 # materials
 # ---------------------------------------------------------------------------------------------------------------------
 DEFAULT_RANGE_C = (25.0, 600.0)
-DEFAULT_FLUID_RANGES_C = ((25.0, 600.0), (30.0, 90.0), (400.0, 600.0))
+MIN_SPAN_C = 30.0
 C_TO_K = 273.15
 
 
@@ -194,20 +194,18 @@ class MatInfo:
         self.range_c = (rng[0], rng[1]) if rng else None
         self.range_labels = rng[2] if rng else []
 
-    def temps(self, fracs):
-        """Distinct temperatures (deg C) inside the valid range at the given fractions of the range."""
-        for lo, hi in ([self.range_c] if self.range_c else (DEFAULT_FLUID_RANGES_C if self.is_fluid else (DEFAULT_RANGE_C,))):
-            ts = [round(lo + f * (hi - lo), 3) for f in fracs]
-            try:
-                self.measure(ts)
-            except NotImplementedError:
-                raise               # abstract material class (Water: "use a concrete instance")
-            except Exception:  # noqa: BLE001  only default ranges can fail here (e.g. water above saturation)
-                if self.range_c:
-                    raise
-                continue
-            return ts
-        raise ValueError("no usable temperature range for " + self.name)
+    def range(self):
+        return self.range_c or DEFAULT_RANGE_C
+
+    def temps(self, fracs, other=None):
+        """Distinct temperatures (deg C) at the given fractions of this material's valid range, intersected with the
+        other material's when two components share one temperature table; None if the ranges do not overlap enough."""
+        lo, hi = self.range()
+        if other is not None:
+            lo, hi = max(lo, other.range()[0]), min(hi, other.range()[1])
+        if hi - lo < MIN_SPAN_C:
+            return None
+        return [round(lo + f * (hi - lo), 3) for f in fracs]
 
     def measure(self, temps_c):
         """The material-defined inputs at these temperatures, from a fresh instance of the material:
